@@ -83,6 +83,13 @@ ExtraDocs == <<
    Obj(<<T("Polygon"), C(Arr(<<Arr(<<P2(1,1), P2(3,1), P2(3,4), P2(1,4), P2(1,1)>>)>>))>>),
    Obj(<<T("Polygon"), C(Arr(<<Arr(<<P2(1,1), P2(3,1), P2(3,4), P2(1,4), P2(1,1)>>)>>)), <<"id", Num(1)>>>>),
    Obj(<<T("GeometryCollection"), <<"geometries", Arr(<<Obj(<<T("Polygon"), C(Arr(<<Arr(<<P2(1,1), P2(3,1), P2(3,4), P2(1,4), P2(1,1)>>)>>))>>), PointD, LineD, PolyD>>)>>>>),
+   \* almost perfect rectangles (AllowRects must not take them for one): trapezoid, clockwise, other start corner, parallelogram, with a hole
+   Obj(<<T("Polygon"), C(Arr(<<Arr(<<P2(1,1), P2(4,1), P2(4,4), P2(2,4), P2(1,1)>>)>>))>>),
+   Obj(<<T("Polygon"), C(Arr(<<Arr(<<P2(1,1), P2(1,4), P2(3,4), P2(3,1), P2(1,1)>>)>>))>>),
+   Obj(<<T("Polygon"), C(Arr(<<Arr(<<P2(3,1), P2(3,4), P2(1,4), P2(1,1), P2(3,1)>>)>>))>>),
+   Obj(<<T("Polygon"), C(Arr(<<Arr(<<P2(1,1), P2(3,1), P2(4,4), P2(2,4), P2(1,1)>>)>>))>>),
+   Obj(<<T("Polygon"), C(Arr(<<Arr(<<P2(1,1), P2(5,1), P2(5,5), P2(1,5), P2(1,1)>>), Arr(<<P2(2,2), P2(3,2), P2(3,3), P2(2,2)>>)>>))>>),
+   Obj(<<T("Polygon"), C(Arr(<<Arr(<<P3(1,1,2), P3(3,1,2), P3(3,4,2), P3(1,4,2), P3(1,1,2)>>)>>))>>),
    Obj(<<T("GeometryCollection"), <<"geometries", Arr(<<Obj(<<T("MultiPoint"), C(Arr(<<>>))>>), Obj(<<T("Point"), C(P2(4,4))>>),
                                                            Obj(<<T("GeometryCollection"), <<"geometries", Arr(<<>>)>>>>), LineD, Obj(<<T("Point"), C(P2(5,2))>>)>>)>>>>),
    Obj(<<T("FeatureCollection"), <<"features", Arr(<<Obj(<<T("Feature"), <<"geometry", Obj(<<T("MultiPolygon"), C(Arr(<<>>))>>)>>>>),
